@@ -90,13 +90,55 @@ package openid
 
 // ---------------------------------------------------------------- helpers that put the ID token into a response
 //@ interface OpenIDConnectTokenStrategy.GenerateIDToken
-//@   modifies everything
-//@   ensures requester.GetClient() == old(requester.GetClient()) && requester.GetSession() == old(requester.GetSession())
+//@   modifies fields(cast(requester.GetSession(), Session).IDTokenClaims())
 //@ func (*IDTokenHandleHelper).generateIDToken
 //@   requires i != nil && i.IDTokenStrategy != nil && fosr != nil
-//@   modifies everything
-//@   ensures fosr.GetClient() == old(fosr.GetClient()) && fosr.GetSession() == old(fosr.GetSession())
+//@   modifies fields(cast(fosr.GetSession(), Session).IDTokenClaims())
 //@ func (*IDTokenHandleHelper).IssueImplicitIDToken
 //@   requires i != nil && i.IDTokenStrategy != nil && ar != nil && resp != nil
-//@   modifies everything
+//@   modifies fields(cast(ar.GetSession(), Session).IDTokenClaims()), mapof(resp.GetParameters()), resp.GetCode()
 //@   ensures [C13.id-token-param] err == nil ==> ("id_token" in resp.GetParameters())
+//@   ensures [C13.id-token-param] forall k string :: (k in resp.GetParameters()) ==> (old(k in resp.GetParameters()) || k == "id_token")
+
+// ---------------------------------------------------------------- C13: the OpenID Connect authorize endpoint handlers
+// inv: see fosite.AuthorizeEndpointHandler (a response carrying access_token/id_token implies the fragment default).
+//@ func (*OpenIDConnectImplicitHandler).HandleAuthorizeEndpointRequest
+//@   let inv = tokparams(resp.GetParameters()) ==> (ar.GetDefaultResponseMode() == fosite.ResponseModeFragment && !ar.GetResponseTypes().ExactOne("code"))
+//@   let applies = ar.GetGrantedScopes().Has("openid") && (ar.GetResponseTypes().Has("token", "id_token") || ar.GetResponseTypes().ExactOne("id_token")) && !ar.GetResponseTypes().Has("code")
+//@   requires c != nil && ar != nil && resp != nil && ar.GetClient() != nil && ar.GetSession() != nil && c.AuthorizeImplicitGrantTypeHandler != nil && c.IDTokenHandleHelper != nil && c.IDTokenHandleHelper.IDTokenStrategy != nil && c.OpenIDConnectRequestValidator != nil && c.OpenIDConnectRequestValidator.Config != nil && c.OpenIDConnectRequestValidator.Strategy != nil
+//@   requires implements(ar.GetSession(), Session) ==> cast(ar.GetSession(), Session).IDTokenClaims() != nil && cast(ar.GetSession(), Session).IDTokenHeaders() != nil
+//@   modifies everything
+//@   ensures [C13.tokens-imply-fragment-default] err == nil && old(inv) ==> inv
+//@   ensures [C13.implicit-needs-grant] err == nil && old(applies) ==> ar.GetClient().GetGrantTypes().Has("implicit")
+//@   ensures [C13.oidc-needs-redirect-uri-and-nonce] err == nil && old(applies) ==> old(len(formget(ar.GetRequestForm(), "redirect_uri")) > 0 && len(formget(ar.GetRequestForm(), "nonce")) >= c.Config.GetMinParameterEntropy(ctx) && len(formget(ar.GetRequestForm(), "nonce")) > 0)
+//@   ensures [C13.token-only-when-requested] !old(applies) ==> err == nil && (forall k string :: (k in resp.GetParameters()) == old(k in resp.GetParameters())) && ar.GetDefaultResponseMode() == old(ar.GetDefaultResponseMode())
+//@   ensures ar.GetResponseTypes() == old(ar.GetResponseTypes()) && (old(ar.GetResponseMode()) != fosite.ResponseModeDefault ==> ar.GetResponseMode() == old(ar.GetResponseMode())) && resp.GetParameters() == old(resp.GetParameters())
+//@   invariant loop#1 [C13.tokens-imply-fragment-default] ar.GetDefaultResponseMode() == fosite.ResponseModeFragment && ar.GetResponseTypes() == pre(ar.GetResponseTypes()) && resp.GetParameters() == pre(resp.GetParameters())
+
+//@ func (*OpenIDConnectHybridHandler).HandleAuthorizeEndpointRequest
+//@   let inv = tokparams(resp.GetParameters()) ==> (ar.GetDefaultResponseMode() == fosite.ResponseModeFragment && !ar.GetResponseTypes().ExactOne("code"))
+//@   let applies = len(ar.GetResponseTypes()) >= 2 && (ar.GetResponseTypes().Matches("token", "id_token", "code") || ar.GetResponseTypes().Matches("token", "code") || ar.GetResponseTypes().Matches("id_token", "code"))
+//@   requires c != nil && ar != nil && resp != nil && ar.GetClient() != nil && ar.GetSession() != nil && c.AuthorizeImplicitGrantTypeHandler != nil && c.AuthorizeExplicitGrantHandler != nil && c.IDTokenHandleHelper != nil && c.IDTokenHandleHelper.IDTokenStrategy != nil && c.OpenIDConnectRequestValidator != nil && c.OpenIDConnectRequestValidator.Config != nil && c.OpenIDConnectRequestValidator.Strategy != nil
+//@   requires implements(ar.GetSession(), Session) ==> cast(ar.GetSession(), Session).IDTokenClaims() != nil && cast(ar.GetSession(), Session).IDTokenHeaders() != nil
+//@   modifies everything
+//@   ensures [C13.tokens-imply-fragment-default] err == nil && old(inv) ==> inv
+//@   ensures [C13.implicit-needs-grant] err == nil && old(applies) && old(ar.GetResponseTypes().Has("token")) ==> ar.GetClient().GetGrantTypes().Has("implicit")
+//@   ensures [C13.code-needs-grant] err == nil && old(applies) ==> ar.GetClient().GetGrantTypes().Has("authorization_code")
+//@   ensures [C13.id-token-needs-implicit-grant] err == nil && ("id_token" in resp.GetParameters()) && !old("id_token" in resp.GetParameters()) ==> ar.GetClient().GetGrantTypes().Has("implicit")
+//@   ensures [C13.oidc-needs-redirect-uri-and-nonce] err == nil && old(applies) ==> old(len(formget(ar.GetRequestForm(), "redirect_uri")) > 0 && (len(formget(ar.GetRequestForm(), "nonce")) == 0 || len(formget(ar.GetRequestForm(), "nonce")) >= c.Config.GetMinParameterEntropy(ctx)) && (ar.GetResponseTypes().Has("id_token") ==> len(formget(ar.GetRequestForm(), "nonce")) > 0))
+//@   ensures [C13.token-only-when-requested] !old(applies) ==> err == nil && (forall k string :: (k in resp.GetParameters()) == old(k in resp.GetParameters())) && ar.GetDefaultResponseMode() == old(ar.GetDefaultResponseMode())
+//@   ensures ar.GetResponseTypes() == old(ar.GetResponseTypes()) && (old(ar.GetResponseMode()) != fosite.ResponseModeDefault ==> ar.GetResponseMode() == old(ar.GetResponseMode())) && resp.GetParameters() == old(resp.GetParameters())
+//@   invariant loop#1 [C13.tokens-imply-fragment-default] ar.GetDefaultResponseMode() == fosite.ResponseModeFragment && ar.GetResponseTypes() == pre(ar.GetResponseTypes()) && resp.GetParameters() == pre(resp.GetParameters())
+// Known finding (see /verif/known_findings.json): the hybrid handler asks for the implicit grant only when an access
+// token is requested; "code id_token" delivers an ID token from the authorization endpoint to a client without it.
+
+//@ func (*OpenIDConnectExplicitHandler).HandleAuthorizeEndpointRequest
+//@   let inv = tokparams(resp.GetParameters()) ==> (ar.GetDefaultResponseMode() == fosite.ResponseModeFragment && !ar.GetResponseTypes().ExactOne("code"))
+//@   let applies = ar.GetGrantedScopes().Has("openid") && ar.GetResponseTypes().ExactOne("code")
+//@   requires c != nil && ar != nil && resp != nil && ar.GetClient() != nil && ar.GetSession() != nil && c.OpenIDConnectRequestValidator != nil && c.OpenIDConnectRequestValidator.Config != nil && c.OpenIDConnectRequestValidator.Strategy != nil && c.OpenIDConnectRequestStorage != nil
+//@   requires implements(ar.GetSession(), Session) ==> cast(ar.GetSession(), Session).IDTokenClaims() != nil
+//@   modifies oidc_exists, oidc_req, stored, faults, tx_escaped, ar.GetRequestForm()
+//@   ensures [C13.tokens-imply-fragment-default] err == nil && old(inv) ==> inv
+//@   ensures [C13.oidc-needs-redirect-uri-and-nonce] err == nil && old(applies) ==> old(len(formget(ar.GetRequestForm(), "redirect_uri")) > 0)
+//@   ensures [C13.token-only-when-requested] (forall k string :: (k in resp.GetParameters()) == old(k in resp.GetParameters())) && ar.GetDefaultResponseMode() == old(ar.GetDefaultResponseMode())
+//@   ensures [C14.oidc-session-stored-with-code] err == nil && old(applies) ==> oidc_exists[resp.GetCode()] && len(resp.GetCode()) > 0
